@@ -701,3 +701,42 @@ Fixpoint C16_retry_rounds (c : dcfg) (rs : list round_obs) : option string :=
       match here with Some w => Some w | None => C16_retry_rounds c rest end
   | _ => None
   end.
+
+(* ================= C03 on the decorator: a desired attachment without a namespace lands in the target's ================= *)
+(* for a namespaced target every create / update / delete of an attachment of a namespaced kind goes to the
+   target's namespace, unless the answer itself (as the hook spelt it, before any defaulting) names that
+   attachment with another, non-empty namespace.  Absent, null and "" all mean "without a namespace". *)
+Definition raw_attachments (evs : list ev) : list json :=
+  match hook_events evs with
+  | e :: _ =>
+      match e_ans e with
+      | AHook ans => match decode_decorator ans with
+                     | Some r => flat_map (fun x => match x with Some o => [o] | None => [] end) (dr_attachments r)
+                     | None => [] end
+      | _ => []
+      end
+  | [] => []
+  end.
+
+Definition C03d_namespace_default (c : dcfg) (t : json) (evs : list ev) : option string :=
+  match sent_object evs with
+  | None => None
+  | Some sent =>
+      let pns := get_ns sent in
+      if String.eqb pns "" then None else
+      first_some (fun e =>
+        match is_api e with
+        | None => None
+        | Some q =>
+            if negb (is_write q) || targets_d c t q then None else
+            match known_of_res c (q_res q) with
+            | None => None
+            | Some kc =>
+                if negb (ch_namespaced kc) || String.eqb (q_ns q) pns then None else
+                if existsb (fun o => String.eqb (get_api_version o) (ch_api_version kc) && String.eqb (get_kind o) (ch_kind kc) &&
+                                     String.eqb (get_name o) (q_name q) && negb (String.eqb (get_ns o) "") &&
+                                     String.eqb (get_ns o) (q_ns q)) (raw_attachments evs)
+                then None else Some "attachment-request-outside-target-namespace"
+            end
+        end) (after_hook evs)
+  end.
